@@ -3,7 +3,8 @@
 # The harness is compiled *into* the emerge module through a build overlay; nothing is written under the repo.
 set -eu
 ID="${1:-all}"
-V=/verif
+V="$(cd "$(dirname "$0")" && pwd)"
+export VERIF_HOME="$V"
 R="${VERIF_REPO:-/repo}"
 export GOFLAGS=-mod=mod GOPROXY=off
 unset GOSUMDB GOTOOLCHAIN 2>/dev/null || true
